@@ -337,6 +337,7 @@ def canonicalise(tree: ast.AST) -> ast.AST:
                 return ast.copy_location(ast.Assign(targets=[node.target], value=node.value), node)
             return node
     T().visit(tree)
+    _hoist_test_walrus(tree)
     _fold_simple_generators(tree)
     _fold_while_counters(tree)
     _split_tuple_assigns(tree)
@@ -595,6 +596,54 @@ def _fold_const_attr(tree: ast.AST) -> None:
                 return ast.copy_location(ast.Attribute(value=node.args[0], attr=node.args[1].value, ctx=ast.Load()), node)
             return node
     A().visit(tree)
+
+
+def _hoist_test_walrus(tree: ast.AST) -> None:
+    """`if (x := E) ...:` where the assignment expression is the first thing the test evaluates is `x = E` followed by `if x ...:`."""
+    def leftmost(e: ast.AST, parent=None, field=None):
+        while True:
+            if isinstance(e, ast.NamedExpr):
+                return e, parent, field
+            if isinstance(e, ast.Compare):
+                parent, field, e = e, 'left', e.left
+            elif isinstance(e, ast.BoolOp):
+                parent, field, e = e, ('values', 0), e.values[0]
+            elif isinstance(e, ast.UnaryOp):
+                parent, field, e = e, 'operand', e.operand
+            elif isinstance(e, (ast.Attribute, ast.Subscript)):
+                parent, field, e = e, 'value', e.value
+            elif isinstance(e, ast.Call):
+                parent, field, e = e, 'func', e.func
+            elif isinstance(e, ast.BinOp):
+                parent, field, e = e, 'left', e.left
+            else:
+                return None, None, None
+    for fn in ast.walk(tree):
+        if not isinstance(fn, (ast.FunctionDef, ast.AsyncFunctionDef)):
+            continue
+        for holder in ast.walk(fn):
+            for fld in ('body', 'orelse', 'finalbody'):
+                st = getattr(holder, fld, None)
+                if not isinstance(st, list):
+                    continue
+                k = 0
+                while k < len(st):
+                    s_ = st[k]
+                    k += 1
+                    if not isinstance(s_, ast.If):
+                        continue
+                    w, parent, field = leftmost(s_.test)
+                    if w is None:
+                        continue
+                    nm = ast.copy_location(ast.Name(id=w.target.id, ctx=ast.Load()), w)
+                    if parent is None:
+                        s_.test = nm
+                    elif isinstance(field, tuple):
+                        getattr(parent, field[0])[field[1]] = nm
+                    else:
+                        setattr(parent, field, nm)
+                    st.insert(k - 1, ast.copy_location(ast.Assign(targets=[ast.Name(id=w.target.id, ctx=ast.Store())], value=w.value), s_))
+                    k += 1
 
 
 def _split_tuple_assigns(tree: ast.AST) -> None:
